@@ -206,7 +206,7 @@ func coqErr(e string) string {
 
 func emitCase(u *unitCase, o *obs, t *tables) string {
 	var sb strings.Builder
-	sb.WriteString("(C15Case " + hk.CoqBool(u.Set.Disable) + " " + coqSel(u.Set) + " " + hk.CoqStr(u.Set.RespAE) + " " + hk.CoqStr(u.Set.RespCE) + " " + hk.CoqStr(u.Doc.CT) + "\n    ")
+	sb.WriteString("(C15Case " + hk.CoqBool(u.Set.Disable) + " " + coqSel(u.Set) + " " + hk.CoqStr(u.Set.RespAE) + " " + hk.CoqStr(u.Set.RespCE) + " " + hk.CoqStr(u.Doc.CT) + " " + hk.CoqN(uint64(statusOr200(u.Status))) + " " + hk.CoqStr(u.Location) + "\n    ")
 	switch t.ParseKind {
 	case "err":
 		sb.WriteString("PErr ")
@@ -304,7 +304,7 @@ type world struct {
 
 func caseKey(u *unitCase) string {
 	h := sha256.Sum256(u.Doc.Body)
-	return fmt.Sprintf("%s|%x|%s|%s|%v|%v|%v|%s|%d|%s|%v|%d", u.Kind, h[:8], u.Doc.CT, u.Set.name(), u.ChunkLen, u.EOFLast, u.Pattern, u.BufMode, u.FailAt, u.Stack, u.HighLevel, u.Group) + u.CfgProg + u.Middleware + u.HLMode
+	return fmt.Sprintf("%s|%x|%s|%s|%v|%v|%v|%s|%d|%s|%v|%d", u.Kind, h[:8], u.Doc.CT, u.Set.name(), u.ChunkLen, u.EOFLast, u.Pattern, u.BufMode, u.FailAt, u.Stack, u.HighLevel, u.Group) + u.CfgProg + u.Middleware + u.HLMode + fmt.Sprintf("|%d|%s|%s|%v|%s", u.Status, u.Location, u.Coding, u.AutoDecompress, u.CallerAE)
 }
 
 // eval drives the real code on u, judges it and (toCoq) emits the observation for the model.
@@ -332,7 +332,7 @@ func (w *world) eval(u *unitCase, toCoq bool) (string, obs) {
 				return "skipped", o
 			}
 		}
-		if o.Fatal == "" && o.Sanity == "" && !u.Gzip && u.HLMode != "buffer-callback" && !bytes.Equal(bytes.Join(o.NetSeen, nil), u.Doc.Body) {
+		if o.Fatal == "" && o.Sanity == "" && u.Coding == "" && u.HLMode != "buffer-callback" && !bytes.Equal(bytes.Join(o.NetSeen, nil), u.Doc.Body) {
 			o.Sanity = "the bytes read underneath the charset decoder are not the bytes the origin served"
 		}
 		if o.Fatal == "" && o.Sanity == "" {
@@ -377,8 +377,8 @@ func (w *world) finishKeyed(u *unitCase, o obs, toCoq bool, key string) (string,
 		if u.HighLevel {
 			r.Count("e2e:highlevel-" + u.HLMode)
 		}
-		if u.Gzip {
-			r.Count("e2e:gzip")
+		if u.Coding != "" {
+			r.Count("e2e:decompressed-by-transport")
 		}
 		if u.Middleware != "" {
 			r.Count("e2e:middleware-" + u.Middleware)
@@ -395,7 +395,7 @@ func (w *world) finishKeyed(u *unitCase, o obs, toCoq bool, key string) (string,
 	r.Count(fmt.Sprintf("chunks:%d", min(len(u.Chunks), 5)))
 	r.Count("buf:" + u.BufMode)
 	c := hk.Case{Desc: map[string]interface{}{"kind": u.Kind, "case": u, "obs": o, "class": class, "body_hex": hexCap(u.Doc.Body, 200)}}
-	if toCoq && !u.HighLevel && !u.Gzip && o.Fatal == "" && o.Sanity == "" && ((u.FailAt < 0 && o.EndErr == "EOF") || (u.FailAt >= 0 && o.EndErr == "other")) && w.coqText < w.coqCap {
+	if toCoq && !u.HighLevel && u.Coding == "" && o.Fatal == "" && o.Sanity == "" && ((u.FailAt < 0 && o.EndErr == "EOF") || (u.FailAt >= 0 && o.EndErr == "other")) && w.coqText < w.coqCap {
 		t := buildTables(u)
 		// hypothesis instance check: streaming over this split == one-shot on the whole body (x/text)
 		for n, s := range t.Partial {
@@ -423,4 +423,11 @@ func min(a, b int) int {
 		return a
 	}
 	return b
+}
+
+func statusOr200(s int) int {
+	if s == 0 {
+		return 200
+	}
+	return s
 }
